@@ -18,7 +18,7 @@ var (
 	reDigits = "(re.+ " + reDigit + ")"
 	reSign   = `(re.opt (re.union (str.to_re "+") (str.to_re "-")))`
 	reInt    = "(re.++ " + reSign + " " + reDigits + ")"
-	reUnit   = `(re.union (str.to_re "ns") (str.to_re "us") (str.to_re "µs") (str.to_re "μs") (str.to_re "ms") (str.to_re "s") (str.to_re "m") (str.to_re "h"))`
+	reUnit   = `(re.union (str.to_re "ns") (str.to_re "us") (str.to_re "\\u{b5}s") (str.to_re "\\u{3bc}s") (str.to_re "ms") (str.to_re "s") (str.to_re "m") (str.to_re "h"))`
 	// number: digits [ . digits* ] | . digits+
 	reNum = "(re.union (re.++ " + reDigits + ` (re.opt (re.++ (str.to_re ".") (re.* ` + reDigit + `)))) (re.++ (str.to_re ".") ` + reDigits + "))"
 	reDur = `(re.union (re.++ ` + reSign + ` (str.to_re "0")) (re.++ ` + reSign + " (re.+ (re.++ " + reNum + " " + reUnit + "))))"
